@@ -21,24 +21,24 @@ import (
 
 // Kinds of shape nodes.
 const (
-	KString  = "string"
-	KStrPtr  = "*string"
-	KBytes   = "[]byte"
-	KStrs    = "[]string"
-	KBytess  = "[][]byte"
-	KWStr    = "*wrappers.String"
-	KWBytes  = "*wrappers.Bytes"
-	KInt     = "int"
-	KBool    = "bool"
-	KTime    = "time"
-	KStruct  = "struct"
-	KPStruct = "*struct"
-	KStructs = "[]struct"
-	KPStrcts = "[]*struct"
-	KIface   = "iface(*struct)"
-	KIfaces  = "[]iface"
-	KMap     = "map"
-	KTMap    = "taggable-map"
+	KString   = "string"
+	KStrPtr   = "*string"
+	KBytes    = "[]byte"
+	KStrs     = "[]string"
+	KBytess   = "[][]byte"
+	KWStr     = "*wrappers.String"
+	KWBytes   = "*wrappers.Bytes"
+	KInt      = "int"
+	KBool     = "bool"
+	KTime     = "time"
+	KStruct   = "struct"
+	KPStruct  = "*struct"
+	KStructs  = "[]struct"
+	KPStrcts  = "[]*struct"
+	KIface    = "iface(*struct)"
+	KIfaces   = "[]iface"
+	KMap      = "map"
+	KTMap     = "taggable-map"
 	KPBStruct = "*structpb.Struct"
 	KPTMap    = "*taggable-map"
 	KTMaps    = "[]taggable-map"
@@ -429,35 +429,35 @@ func cloneShape(s *Shape) *Shape {
 
 // Top-level payload forms.
 const (
-	TPStruct   = "*struct"
-	TStruct    = "struct-by-value"
-	TStructs   = "[]struct"
-	TPStructs  = "[]*struct"
-	TStrs      = "[]string"
-	TPStrs     = "*[]string"
-	TBytess    = "[][]byte"
-	TPString   = "*string"
-	TPBytes    = "*[]byte"
-	TString    = "string"
-	TBytes     = "[]byte"
-	TTMap      = "taggable-map"
-	TPTMap     = "*taggable-map"
-	TMap       = "map"
-	TPMap      = "*map"
-	TMaps      = "[]map"
-	TIfaces    = "[]interface{}"
-	TTMaps     = "[]taggable-map"
-	TPTMaps    = "[]*taggable-map"
-	TTStruct   = "*taggable-struct"
-	TNil       = "nil"
-	TTypedNil  = "typed-nil"
-	TZero      = "zero-struct"
+	TPStruct  = "*struct"
+	TStruct   = "struct-by-value"
+	TStructs  = "[]struct"
+	TPStructs = "[]*struct"
+	TStrs     = "[]string"
+	TPStrs    = "*[]string"
+	TBytess   = "[][]byte"
+	TPString  = "*string"
+	TPBytes   = "*[]byte"
+	TString   = "string"
+	TBytes    = "[]byte"
+	TTMap     = "taggable-map"
+	TPTMap    = "*taggable-map"
+	TMap      = "map"
+	TPMap     = "*map"
+	TMaps     = "[]map"
+	TIfaces   = "[]interface{}"
+	TTMaps    = "[]taggable-map"
+	TPTMaps   = "[]*taggable-map"
+	TTStruct  = "*taggable-struct"
+	TNil      = "nil"
+	TTypedNil = "typed-nil"
+	TZero     = "zero-struct"
 )
 
 type Payload struct {
-	Top   string
-	Root  *Shape
-	Seed  uint64
+	Top  string
+	Root *Shape
+	Seed uint64
 }
 
 func (p Payload) String() string {
@@ -582,16 +582,16 @@ func (t *TStructT) Tags() ([]encrypt.PointerTag, error) {
 }
 
 var (
-	tString  = reflect.TypeOf("")
-	tBytes   = reflect.TypeOf([]byte(nil))
-	tIface   = reflect.TypeOf((*interface{})(nil)).Elem()
-	tTime    = reflect.TypeOf(time.Time{})
-	tWStr    = reflect.TypeOf(&wrapperspb.StringValue{})
-	tWBytes  = reflect.TypeOf(&wrapperspb.BytesValue{})
-	tTMap    = reflect.TypeOf(TMapT(nil))
-	tMSI     = reflect.TypeOf(map[string]interface{}(nil))
+	tString   = reflect.TypeOf("")
+	tBytes    = reflect.TypeOf([]byte(nil))
+	tIface    = reflect.TypeOf((*interface{})(nil)).Elem()
+	tTime     = reflect.TypeOf(time.Time{})
+	tWStr     = reflect.TypeOf(&wrapperspb.StringValue{})
+	tWBytes   = reflect.TypeOf(&wrapperspb.BytesValue{})
+	tTMap     = reflect.TypeOf(TMapT(nil))
+	tMSI      = reflect.TypeOf(map[string]interface{}(nil))
 	tPBStruct = reflect.TypeOf(&structpb.Struct{})
-	baseTime = time.Date(2026, 3, 4, 5, 6, 7, 8, time.UTC)
+	baseTime  = time.Date(2026, 3, 4, 5, 6, 7, 8, time.UTC)
 )
 
 // typeOf returns the Go type of a shape node.
